@@ -21,7 +21,7 @@ from Crypto.Cipher import AES
 
 SIGN_KEY = b"xhdiwjnchekd4d512chdjx5d8e4c394D2D7S"
 ENC_KEY = md5(SIGN_KEY).digest()
-ERROR_PACKET = bytes.fromhex("837000002 00f0000".replace(" ", ""))
+ERROR_PACKET = bytes.fromhex("8370 0000 20 0f 0000")
 
 HANDSHAKE_REQUEST, HANDSHAKE_RESPONSE, ENCRYPTED_RESPONSE, ENCRYPTED_REQUEST, ERROR = 0, 1, 3, 6, 0xF
 
@@ -359,7 +359,11 @@ class SimDevice:
             self._log(transport, kind="garbage", frame=None, error=str(e), raw=packet)
             return None
         if ptype == HANDSHAKE_REQUEST:
-            counter, token = v3_handshake_parse(packet)
+            try:
+                counter, token = v3_handshake_parse(packet)
+            except ValueError as e:
+                self._log(transport, kind="garbage", frame=None, error=str(e), raw=packet)
+                return None
             ok = self.token is None or token == self.token
             conn["handshakes"] += 1
             req = self._log(transport, kind="hs", counter=counter, token_ok=ok, token=token, frame=None, raw=packet)
